@@ -126,7 +126,7 @@ impl Drop for StdPlanGuard {
 pub struct C06;
 
 /// a matrix back end the forests can be fitted on and asked through (the clauses do not depend on how rows are stored)
-pub trait Mx<T: RealNumber>: smartcore::linalg::Matrix<T> + Sync {
+pub trait Mx<T: RealNumber>: smartcore::linalg::Matrix<T> {
     /// layout: 1 = column-major memory layout where the back end has a choice
     fn build(rows: &[Vec<f64>], layout: u8) -> Self;
     fn vec_from(v: &[f64]) -> Self::RowVector;
@@ -582,7 +582,13 @@ fn alt_rows(case: &Case) -> Vec<Vec<f64>> {
     r
 }
 
-type PredFn<'a, M> = &'a (dyn Fn(&M) -> Result<Vec<f64>, smartcore::error::Failed> + Sync);
+type PredFn<'a, M> = &'a dyn Fn(&M) -> Result<Vec<f64>, smartcore::error::Failed>;
+
+/// A borrowed value handed to ONE other thread while this thread is blocked in `join`: access stays exclusive, so no
+/// `Sync` bound is demanded from the model (a changed tree may give it interior mutability - that is its business, and
+/// the harness must still compile against it).
+struct Lend<P>(P);
+unsafe impl<P> Send for Lend<P> {}
 
 /// issue the case's call sequence against one fitted forest; the first result of each kind is kept
 /// for the oracles, every repetition must be bit-identical to it
@@ -609,7 +615,16 @@ fn run_ops<T: RealNumber, M: Mx<T>>(case: &Case, layout: u8, out: &mut FitOut, x
             }
             6 => {
                 // the forest is plain data: asked from another (fresh) thread it must give the first answer again
-                match std::thread::scope(|sc| sc.spawn(|| guarded(|| predict(qm))).join()) {
+                let lent = Lend((predict as *const (dyn Fn(&M) -> Result<Vec<f64>, smartcore::error::Failed>), qm as *const M));
+                match std::thread::scope(|sc| {
+                    sc.spawn(move || {
+                        let l = lent;
+                        // (this thread is the only one touching the forest while the spawning thread waits in join)
+                        let (f, q) = unsafe { (&*(l.0).0, &*(l.0).1) };
+                        guarded(|| f(q))
+                    })
+                    .join()
+                }) {
                     Ok(r) => r,
                     Err(_) => Err("predict panicked on another thread".to_string()),
                 }
